@@ -23,7 +23,14 @@ func main() {
 	flag.StringVar(&repo, "repo", "/repo", "repository root")
 	facts := flag.String("facts", "", "output Facts.lean")
 	skel := flag.String("skeletons", "", "output directory for skeletons")
+	trans := flag.String("trans", "", "output Trans.lean (translated functions, tie T4)")
 	flag.Parse()
+	if *trans != "" {
+		if err := os.WriteFile(*trans, []byte(genTrans()), 0o644); err != nil {
+			fmt.Println(err)
+			os.Exit(1)
+		}
+	}
 	if *facts != "" {
 		if err := os.WriteFile(*facts, []byte(genFacts()), 0o644); err != nil {
 			fmt.Println(err)
